@@ -53,6 +53,9 @@ type scenario struct {
 	// SameBase: the script files all have the same base name, in different
 	// directories (RunT disambiguates the test names: same, same#1, ...)
 	SameBase bool `json:"same_base"`
+	// TestWork: Params.TestWork set without WorkdirRoot: work directories (and
+	// with them the shared root) are to be kept
+	TestWork bool `json:"test_work,omitempty"`
 }
 
 func (s scenario) String() string {
@@ -63,6 +66,9 @@ func (s scenario) String() string {
 	sb := ""
 	if s.SameBase {
 		sb = " same-file-base-name"
+	}
+	if s.TestWork {
+		sb += " TestWork"
 	}
 	return fmt.Sprintf("[%s] keep=%v%s %s", strings.Join(s.Scripts, " || "), s.Keep, sb, b)
 }
@@ -246,6 +252,7 @@ func (in *instance) body() {
 		os.MkdirAll(in.keepDir, 0o777)
 		p.WorkdirRoot = in.keepDir
 	}
+	p.TestWork = in.sc.TestWork
 	testscript.RunT(t, p)
 	rootDone = true
 }
@@ -308,6 +315,18 @@ func (in *instance) after() (string, string) {
 	}
 	// (4) work directories and the shared root
 	ents, _ := os.ReadDir(in.tmp)
+	if in.sc.TestWork && !in.sc.Keep {
+		// retention without WorkdirRoot: one shared root holding every work directory
+		if len(ents) != 1 {
+			return "retention", fmt.Sprintf("TestWork was set but GOTMPDIR holds %v, want the one shared root", names(ents))
+		}
+		kept, _ := os.ReadDir(filepath.Join(in.tmp, ents[0].Name()))
+		if len(kept) != len(in.sc.Scripts) {
+			return "retention", fmt.Sprintf("TestWork was set but %d of %d work directories remain (%v)", len(kept), len(in.sc.Scripts), names(kept))
+		}
+		os.RemoveAll(filepath.Join(in.tmp, ents[0].Name()))
+		return "", ""
+	}
 	if in.sc.Keep {
 		kept, _ := os.ReadDir(in.keepDir)
 		if len(kept) != len(in.sc.Scripts) {
@@ -463,6 +482,9 @@ func scenarios(th bool) []scenario {
 	}
 	for _, p := range [][]string{{"P", "F"}, {"E", "P"}, {"P", "P"}} {
 		scs = append(scs, scenario{Scripts: p, Bound: b2, SameBase: true}, scenario{Scripts: p, Keep: true, Bound: b2, SameBase: true})
+	}
+	for _, p := range [][]string{{"P", "F"}, {"K", "T"}, {"B", "D"}, {"P"}, {"F"}} {
+		scs = append(scs, scenario{Scripts: p, TestWork: true, Bound: b2})
 	}
 	// single scripts: every exit path on its own (cleanup with one script)
 	for k := range kinds {
